@@ -11,7 +11,7 @@
        value without these six characters is not hostile);
      - GetDefaultHandler is a lookup in the default table that falls back to BaseHandler, whose
        body is `return false` (shape recognised by the translator, which fails otherwise).
-   WHOLE HANDLERS whose body is a disjunction of conditions on the value (122 functions, 157 of the
+   WHOLE HANDLERS whose body is a disjunction of conditions on the value (132 functions, 167 of the
    213 table entries) are proved outright: C18_handlers_whole - the modelled handler
    (Model/KwHandler.v: regexp acceptors, calls of earlier handlers, in(splitValues(value), keywords),
    in(strings.Split(value, " "), keywords); shape and helper texts recognised by the translator,
@@ -23,8 +23,8 @@
    every component lies in a group that a sub-handler accepted, so with sub-handlers that accept only
    values free of the six characters the whole value is free of them and not hostile
    (C18_recursive_check_composes).
-   Missing: the other 47 handler functions (recursiveCheck combinations, splits on slash, the
-   hand-written loops).  That part is covered by the
+   Missing: the other 37 handler functions (recursiveCheck over the colour handlers, splits on longer
+   separators, the hand-written loops).  That part is covered by the
    bounded-exhaustive implementation-side search the property text itself describes: for all
    table entries, values from the handler's own vocabulary with hostile fragments inserted,
    appended, prepended and glued at every position. *)
@@ -32,7 +32,7 @@ From Coq Require Import List NArith Bool String.
 Import ListNotations.
 From BM Require Import Bytes Regex RegexSound RegexSem CssInert GenRegex GenCss C18Inst C18Inert0 C18Inert1 C18Inert2 C18Inert3 C18Whole C18Strip C18Kw C18Danger.
 From BM Require Utf8 Strings RecCheck RecCheckSafe Utf8Props.
-From BM Require Import KwHandler KwHandlerProofs C18KwHandlers.
+From BM Require Import KwHandler KwHandlerProofs C18KwHandlers C18RxClean.
 From Coq Require Import Lia.
 Open Scope N_scope.
 
@@ -115,34 +115,49 @@ Qed.
    definitions by their calls and compares splitValues and in with their expected source text), the modelled handler accepts no
    hostile value, whatever its length.  The models are tied to the real handlers by the correspondence run. *)
 Definition not_hostile (v : Bytes.bytes) : Prop := matches hostile (Utf8.runes v) = false.
-Definition css_handlers : henv := build_handlers css_acceptors css_handler_defs [].
+(* the definitions that can be proved: a recursiveCheck may only use sub-handlers that accept nothing but values free of the
+   six characters (which excludes e.g. the colour handlers, whose rgb( form has one) *)
+(* css_defs_kept and css_handlers are defined in Instances/C18RxClean.v (the driver of the correspondence run extracts them) *)
 
-Lemma css_conds_ok : Forall (fun nd => Forall (cond_ok css_acceptors not_hostile) (snd nd)) css_handler_defs.
+Lemma css_data_ok : Forall (fun nd => Forall (cond_data_ok dmk) (snd nd)) css_handler_defs.
 Proof.
   apply Forall_forall. intros [n d] Hin. cbn [snd]. apply Forall_forall. intros c Hc.
   pose proof handler_keywords_clean as K. rewrite forallb_forall in K. specialize (K _ Hin). cbn [snd] in K.
   rewrite forallb_forall in K. specialize (K c Hc).
-  destruct c as [nm|fn|kw|kw]; cbn [cond_ok cond_keywords] in *.
-  - intros v Hacc. unfold acceptor in Hacc.
-    destruct (find (fun a => String.eqb (fst a) nm) css_acceptors) as [[n0 X]|] eqn:Ef; [|discriminate].
-    apply find_some in Ef as [Ein _]. cbn [snd] in Hacc. exact (C18_regexps_inert n0 X Ein _ Hacc).
-  - exact I.
-  - intros v H. apply clean_bytes_not_hostile. exact (cin_clean kw v K H).
-  - intros v H. apply clean_bytes_not_hostile. exact (cinspace_clean kw v K H).
+  pose proof handler_separators_unmarked as S. rewrite forallb_forall in S. specialize (S _ Hin). cbn [snd] in S.
+  rewrite forallb_forall in S. specialize (S c Hc).
+  destruct c as [nm|fn|kw|kw|kw|sep mx fns]; cbn [cond_data_ok cond_keywords cond_sep_ok] in *; try exact I;
+    try (intros k Hk; apply forallb_D_nil; rewrite forallb_forall in K; exact (K k Hk)).
+  apply negb_true_iff in S. exact S.
 Qed.
 
-Theorem C18_handlers_whole : forall fn h, In (fn, h) css_handlers -> forall v, h v = true -> matches hostile (Utf8.runes v) = false.
+Lemma acceptor_not_hostile nm v : acceptor css_acceptors nm v = true -> not_hostile v.
+Proof.
+  intros Hacc. unfold acceptor in Hacc.
+  destruct (find (fun a => String.eqb (fst a) nm) css_acceptors) as [[n0 X]|] eqn:Ef; [|discriminate].
+  apply find_some in Ef as [Ein _]. cbn [snd] in Hacc. exact (C18_regexps_inert n0 X Ein _ Hacc).
+Qed.
+
+(* stated for the term itself (css_handlers of Instances/C18RxClean.v abbreviates it) so that no conversion is needed *)
+Theorem C18_handlers_whole : forall fn h,
+  In (fn, h) (build_handlers css_acceptors (fst (keep_defs rx_clean_names css_handler_defs [] [])) []) ->
+  forall v, h v = true -> matches hostile (Utf8.runes v) = false.
 Proof.
   intros fn h Hin v Hv.
-  assert (E : env_ok not_hostile css_handlers).
-  { apply build_handlers_ok; [intros e [] | exact css_conds_ok]. }
+  pose proof (keep_defs_inv css_acceptors dmk dmk_ascii dmk_not_upper dmk_not_lower dmk_table dmk_space dmk_comma dmk_blank
+                not_hostile (fun v H => clean_bytes_not_hostile v (D_nil_clean v H)) rx_clean_names acceptor_not_hostile rx_clean_sound
+                css_handler_defs [] [] []) as E.
+  destruct E as [E _]; [split; intros e [] | intros x Hx; exact Hx | intros e [] | exact css_data_ok|].
   exact (E (fn, h) Hin v Hv).
 Qed.
 
-(* every call in these definitions goes to an earlier one (the model never falls back to "unknown handler"), and they
-   serve at least 150 of the table's entries (157 of 213 on the pinned tree) *)
-Example C18_handlers_resolved_and_coverage : calls_resolved css_handler_defs [] = true /\ Nat.leb 150 handler_entries = true.
-Proof. split; [exact handler_calls_resolved | exact handler_coverage]. Qed.
+(* every call in the kept definitions goes to an earlier one (the model never falls back to "unknown handler"); on the pinned
+   tree 137 handler functions are recognised and the kept ones serve at least 160 of the 213 table entries *)
+Definition kept_entries : nat :=
+  List.length (filter (fun e => existsb (fun h => String.eqb (fst h) (snd e)) css_defs_kept) default_style_handlers).
+Example C18_handlers_resolved_and_coverage :
+  calls_resolved css_defs_kept [] = true /\ Nat.leb 160 kept_entries = true /\ Nat.leb 125 (List.length css_defs_kept) = true.
+Proof. repeat split; vm_compute; reflexivity. Qed.
 
 Theorem C18_unknown_property : get_default_handler_is_table_lookup_else_base = true /\ base_handler_is_return_false = true.
 Proof. split; reflexivity. Qed.
